@@ -5,7 +5,12 @@
    by every API call (also when the call raises), and under which no API call raises one of those errors.
    ValueError is deliberately not in the list: it is raised for an unroutable PDU (C20), for a max_packet_len that cannot
    hold a PDU (C19), when the environment truncates the source file under a running transaction, and by the lost-segment
-   tracker for overlapping retransmissions (known finding F9). *)
+   tracker for overlapping retransmissions (known finding F9).
+   One sanity condition on the inbound PDU of the sender, as in props/C12b.v: the segment requests of a NAK do not start
+   below zero (unsigned on the wire).  Without it the statement is false for the model: a request (-5, 0) passes the range
+   checks against the progress 0 of a metadata-only transaction and reaches `assert source_file is not None`
+   (NoInternalErrorProofs.CounterExamples.unsigned_offsets_needed, from a fresh handler).  The invariant itself is
+   preserved without the condition. *)
 From CFDP Require Import Base LostSeg Fs Handler Dest Source HandlerSpec SourceSpec.
 From CFDP.proofs Require Import NoInternalErrorProofs.
 From RecordUpdate Require Import RecordSet.
@@ -14,12 +19,70 @@ Import RecordSetNotations.
 Definition internal_error (e : Z) : Prop :=
   e = E_ASSERT \/ e = E_ATTRIBUTE \/ e = E_TYPE \/ e = E_KEY \/ e = E_FUEL.
 
-(* configuration sanity: what the constructors of the Python classes guarantee.  TO BE MADE EXPLICIT HERE by the prover
-   (same bodies as the local copies in the proofs file, so that `exact` unifies by delta). *)
+(* configuration sanity: nothing is needed.  (A fault-handler table without an entry for a declared condition raises
+   ValueError in the model, which is not in the list above; a segment length <= 0 keeps the progress at or below zero,
+   so the chunk loops never start: last conjunct of source_wf.) *)
 Definition cfg_ok (c : lcfg) : Prop := True.
-(* well-formedness of reachable states: which fields are set in which step.  TO BE MADE EXPLICIT HERE by the prover. *)
-Definition dest_wf (s : dst) : Prop := True.
-Definition source_wf (s : src) : Prop := True.
+
+(* ---- receiver: which fields are set in which step (dest.py) *)
+Definition dest_wf (s : dst) : Prop :=
+  (* a busy handler knows its transaction and the remote entity: every `assert remote_cfg is not None` /
+     `assert transaction_id is not None` (rcfg_or_assert, tid_or_assert, declare_fault, the abandon branch of the positive
+     ACK procedure) and `self._params.remote_cfg.entity_id` in the EOF (cancel) handling (AttributeError) *)
+  (d_state s <> ST_IDLE -> p_tid (d_p s) <> None /\ p_rcfg (d_p s) <> None) /\
+  (* a step other than IDLE is only held by a busy handler (the sections of __non_idle_fsm are selected by the step) *)
+  (d_step s <> DS_IDLE -> d_state s <> ST_IDLE) /\
+  (* `assert self._params.check_timer is not None` in _check_limit_handling, and check_timer.reset() after the fault *)
+  (d_step s = DS_RECV_WITH_CHECK_LIMIT -> p_check_timer (d_p s) <> None) /\
+  (* `assert ...ack_timer is not None` in _handle_positive_ack_procedures, and ack_timer.reset() after the fault *)
+  (d_step s = DS_WAITING_FOR_FINISHED_ACK -> p_ack_timer (d_p s) <> None) /\
+  (* deferred lost segment procedure active: `assert procedure_timer is not None` in _reset_nak_activity_parameters,
+     `assert fp.file_size_eof is not None` and `assert remote_cfg is not None` in _deferred_lost_segment_handling *)
+  (p_deferred (d_p s) = true ->
+     d_state s <> ST_IDLE /\ p_proc_timer (d_p s) <> None /\ p_file_size_eof (d_p s) <> None) /\
+  (* the steps from which the deferred procedure is started (directly, or via the check limit timer): an EOF was seen *)
+  (d_step s = DS_SENDING_EOF_ACK \/ d_step s = DS_RECV_WITH_CHECK_LIMIT -> p_file_size_eof (d_p s) <> None).
+
+(* ---- sender (source.py) *)
+(* what a step [st] needs of the parameter block; also demanded of the step to which RETRANSMITTING returns *)
+Definition stepinv (st : Z) (q : sparams) : Prop :=
+  (* no file data has been sent before the transaction started (keeps the last conjunct of source_wf over transaction_start) *)
+  (st = SS_IDLE \/ st = SS_TRANSACTION_START -> q_progress q <= 0) /\
+  (* `assert self._params.cond_code_eof is not None` in _prepare_eof_pdu *)
+  (st = SS_SENDING_EOF \/ st = SS_WAITING_FOR_EOF_ACK -> q_cond_eof q <> None) /\
+  (* `assert ...ack_timer is not None` in _handle_positive_ack_procedures *)
+  (st = SS_WAITING_FOR_EOF_ACK -> q_ack_timer q <> None) /\
+  (* the EOF checksum runs over [0, file size): the whole file was sent (or there is no file), so the segment length
+     is positive if the file size is (checksum loop, E_FUEL) *)
+  (st = SS_SENDING_EOF -> q_md_only q = true \/ opt_z (q_file_size q) <= q_progress q).
+
+Definition source_wf (s : src) : Prop :=
+  (* a busy handler has its Put request and the remote entity: `assert self._put_req is not None`,
+     `assert self._params.remote_cfg is not None` (put_or_assert, srcfg_or_assert) *)
+  (s_state s <> ST_IDLE -> s_put s <> None /\ q_rcfg (s_p s) <> None) /\
+  (* a step other than IDLE is only held by a busy handler *)
+  (s_step s <> SS_IDLE -> s_state s <> ST_IDLE) /\
+  (* a transaction id exists only while busy (so put_request, which needs IDLE, cannot replace the request under it) *)
+  (q_tid (s_p s) <> None -> s_state s <> ST_IDLE) /\
+  (* fp.file_size is never None (F2 repair): TypeError in _prepare_pdu_conf *)
+  q_file_size (s_p s) <> None /\
+  (* from SENDING_METADATA on there is a transaction id: `assert transaction_id is not None` (stid_or_assert) in
+     _prepare_eof_pdu, _notice_of_completion, _notice_of_cancellation, _declare_fault *)
+  (s_step s <> SS_IDLE -> s_step s <> SS_TRANSACTION_START -> q_tid (s_p s) <> None) /\
+  stepinv (s_step s) (s_p s) /\
+  (* `assert step_before_retransmission is not None` in _fsm_advancement..., and the step it restores is sound *)
+  (s_step s = SS_RETRANSMITTING -> s_step_before s <> None /\ stepinv (opt_z (s_step_before s)) (s_p s)) /\
+  (* a request without file names is a metadata-only transaction that never sent data: `assert source_file is not None`
+     in _prepare_file_data_pdu / _checksum_calculation (F14 repair) *)
+  (q_tid (s_p s) <> None -> forall p, s_put s = Some p -> pr_names p = None ->
+     q_md_only (s_p s) = true /\ q_progress (s_p s) <= 0) /\
+  (* data was sent only with a positive segment length: the chunk loops of the re-transmission and of the checksum
+     terminate (E_FUEL) *)
+  (0 < q_progress (s_p s) -> 1 <= q_segment_len (s_p s)).
+
+(* segment requests of an inbound NAK start at or above zero (unsigned on the wire; as in props/C12b.v) *)
+Definition nak_offsets_unsigned (pkt : option pdu) : Prop :=
+  match pkt with Some (PNak _ _ _ reqs) => Forall (fun rq => 0 <= fst rq) reqs | _ => True end.
 
 (* ---- receiver *)
 Theorem c10_dest_wf_init : forall c, cfg_ok c -> dest_wf (dst_init c).
@@ -53,7 +116,7 @@ Print Assumptions c10_source_wf_preserved.
 Theorem c10_source_wf_env : forall s f, source_wf s -> source_wf (s <| s_env ::= f |>).
 Proof. exact source_wf_env. Qed.
 Theorem c10_source_no_internal_error : forall pkt p a b s e,
-  source_wf s -> internal_error e ->
+  source_wf s -> nak_offsets_unsigned pkt -> internal_error e ->
   snd (state_machine_s pkt s) <> Err e /\ snd (put_request p s) <> Err e /\
   snd (get_next_packet_s s) <> Err e /\ snd (cancel_request_s a b s) <> Err e /\ snd (reset_s s) <> Err e.
 Proof. exact source_no_internal_error. Qed.
